@@ -318,7 +318,7 @@ class Ref:
             comps += [("errorcode", "String", "Measure"), ("errorlevel", "Number", "Measure"), ("imbalance", "Number", "Measure")]
             return RDS(comps, rows)
         # hierarchy: computed items from '=' rules, applied in order (a later rule sees earlier computed items)
-        if mode != "non_null":
+        if mode not in ("non_null", "always_null", "always_zero"):
             raise Unsupported("oracle: hierarchy in mode %s" % mode)
         computed_rows = []
         for first, rep, members in groups:
@@ -329,9 +329,17 @@ class Ref:
                 left = rule.rule.left.value
                 terms = self._hr_terms(rule.rule.right)
                 hv = [item(members, c, override) for _, c in terms]
-                ok = z3.And(*[z3.And(h, z3.Not(v.null)) for h, v in hv])
+                if mode == "non_null":
+                    ok = z3.And(*[z3.And(h, z3.Not(v.null)) for h, v in hv])
+                    vals = [v for h, v in hv]
+                else:
+                    # always_null / always_zero: a missing component counts as NULL / 0 and the item is always computed; groups in which
+                    # none of the rule's components exists are outside the oracle
+                    ok = z3.Or(*[h for h, _ in hv])
+                    self.domain.append(z3.Implies(first, ok))
+                    vals = [treat(h, v) for h, v in hv]
                 rv = None
-                for (sg, c), (h, v) in zip(terms, hv):
+                for (sg, c), v in zip(terms, vals):
                     t = v if sg > 0 else SV(v.kind, v.null, -v.val)
                     rv = t if rv is None else SV(t.kind, z3.Or(rv.null, t.null), rv.val + t.val)
                 oh, ov = item(members, left, override)
